@@ -370,8 +370,8 @@ func ruleE5(c *Ctx) {
 				return
 			}
 			key := fmt.Sprintf("%s: invoke %s", fnName(fn), m)
-			if fn.Name() == "CompareDepth" {
-				c.ok(key, c.P.Pos(in.Pos()), "dispatched by CompareDepth after the depth and same-type tests")
+			if fn.Name() == "CompareDepth" || onlyCalledFrom(c.P, fn, "CompareDepth", 0) {
+				c.ok(key, c.P.Pos(in.Pos()), "dispatched by CompareDepth (or its private helper) after the depth and same-type tests")
 			} else {
 				c.viol(key, c.P.Pos(in.Pos()), m+" is invoked outside CompareDepth: the same-type precondition and the recursion budget are bypassed")
 			}
@@ -391,7 +391,49 @@ func ruleE6(c *Ctx) {
 		root   *ssa.BasicBlock
 	}
 	var arms []arm
-	xP, yP := cd.Params[1], cd.Params[2]
+	// the arms may live in CompareDepth or in a private helper it calls with both operands
+	host := cd
+	cands := []*ssa.Function{cd}
+	seenC := map[*ssa.Function]bool{cd: true}
+	for i := 0; i < len(cands) && i < 12; i++ {
+		eachInstr(cands[i], func(in ssa.Instruction) {
+			if call, ok := in.(*ssa.Call); ok {
+				if cal := call.Call.StaticCallee(); cal != nil && cal.Blocks != nil && fnPkgPath(cal) == modPath+"/starlark" && cal.Signature.Recv() == nil && !seenC[cal] && cal.Object() != nil && !cal.Object().Exported() {
+					seenC[cal] = true
+					cands = append(cands, cal)
+				}
+			}
+		})
+	}
+	var xP, yP ssa.Value
+	for _, f := range cands {
+		var vps []*ssa.Parameter
+		for _, p := range f.Params {
+			if isNamed(p.Type(), "starlark", "Value") {
+				vps = append(vps, p)
+			}
+		}
+		if len(vps) < 2 {
+			continue
+		}
+		mixed := 0
+		eachInstr(f, func(in ssa.Instruction) {
+			if ta, ok := in.(*ssa.TypeAssert); ok && ta.CommaOk && (ta.X == ssa.Value(vps[0]) || ta.X == ssa.Value(vps[1])) {
+				if q := qualType(ta.AssertedType); q == "starlark.Int" || q == "starlark.Float" {
+					mixed++
+				}
+			}
+		})
+		if mixed >= 3 {
+			host = f
+			xP, yP = vps[0], vps[1]
+			break
+		}
+	}
+	if xP == nil {
+		xP, yP = cd.Params[1], cd.Params[2]
+	}
+	cd = host
 	eachInstr(cd, func(in ssa.Instruction) {
 		ifi, ok := in.(*ssa.If)
 		if !ok {
@@ -480,4 +522,26 @@ func ruleE6(c *Ctx) {
 	} else {
 		c.viol(key, c.P.Pos(cd.Pos()), fmt.Sprintf("the Int-vs-Float arm uses {%s} but the Float-vs-Int arm uses {%s}: x == y and y == x can disagree (symmetry and transitivity of == break for large ints)", ca, cb))
 	}
+}
+
+// onlyCalledFrom: fn is an unexported function all of whose call sites are in the
+// function named root (or in such helpers of it).
+func onlyCalledFrom(p *Prog, fn *ssa.Function, root string, depth int) bool {
+	if depth > 2 || fn.Object() == nil || fn.Object().Exported() {
+		return false
+	}
+	callers := callersInPkg(p.Funcs, fn)
+	if len(callers) == 0 {
+		return false
+	}
+	for _, g := range callers {
+		g = outermost(g)
+		if g.Name() == root || g == fn {
+			continue
+		}
+		if !onlyCalledFrom(p, g, root, depth+1) {
+			return false
+		}
+	}
+	return true
 }
